@@ -19,6 +19,7 @@ def run(tier, seed):
     aclhist.fill_permutations(rng, jobs)
     tjobs, gen = aclhist.tlc_histories(tier, seed, len(jobs) + 1, want=None, cap=1500 if tier == "quick" else 20000)
     jobs += [j for j in tjobs if j["lines"]]
+    jobs += aclhist.dup_histories(rng, 150 if tier == "quick" else 3000, max(j["tid"] for j in jobs) + 1)
     return aclhist.run_histories("C17", jobs, tier, mcs,
                                  "operations drawn from the whole alphabet (platform, switches, resequence, group/ungroup, sort/"
                                  "reverse/permute/insert/append/pop, copy, export-import, re-parse, shading, shadow removal, port "
